@@ -194,6 +194,58 @@ func genC08(tier string, rng *Rng) {
 		}
 	}
 
+	// an EMPTY frame followed by an idle period longer than the in-frame timeout, then traffic
+	// (also with the empty frame's header split across segments)
+	{
+		f := func(id uint32) Item { return Item{Kind: "f", Data: Lit(evMsg(id, true))} }
+		e := Item{Kind: "f", Data: Lit(nil)}
+		n := len(f(1).Encode())
+		cs := ConnScript{Items: []Item{ackItem(), f(1), e, f(2), e, f(3)}, End: "none"}
+		cs.Segs = []SegCut{{0, 6}, {100, n + 4}, {2700, n}, {2800, 2}, {2900, 2}, {5500, n}}
+		add("bin-idle-after-empty", cs)
+		cs2 := ConnScript{Items: []Item{ackItem(), e, f(4)}, End: "none", Segs: []SegCut{{0, 6}, {100, 4}, {2600, n}}}
+		add("bin-idle-after-empty", cs2)
+	}
+	// long ASCII lines (topology-sized), cut at random points; a line after them must still arrive
+	{
+		long := func(n int) Item {
+			return Item{Kind: "ln", Data: Bs{{Lit: []byte("_panelTopology_HWC=")}, {N: n - 19, C: 'x'}}, Eol: 1}
+		}
+		for _, sizes := range [][]int{{60000, 66000}, {200000}, {65534, 65535, 65536}} {
+			rest := []Item{{Kind: "ln", Data: Lit([]byte("HWC#1=Down")), Eol: 0}}
+			total := 0
+			for _, n := range sizes {
+				rest = append(rest, long(n))
+			}
+			rest = append(rest, Item{Kind: "ln", Data: Lit([]byte("HWC#2=Up")), Eol: 0})
+			for _, it := range rest {
+				total += len(it.Encode())
+			}
+			var cuts []int
+			pos := 0
+			for pos < total-1 {
+				pos += rng.Range(1, 50000)
+				cuts = append(cuts, pos)
+			}
+			add("asc-long-lines", connWithCuts(rdy, rest, cuts, 50, 5))
+		}
+	}
+	// the panel goes away after an unterminated fragment: nothing may be delivered for it
+	{
+		for _, frag := range []string{"_serial=ABC", "HWC#2=Do", "x"} {
+			cs := ConnScript{Items: []Item{rdy, {Kind: "ln", Data: Lit([]byte("HWC#1=Down")), Eol: 1}, {Kind: "raw", Data: Lit([]byte(frag))}}, End: "close", EndT: 300}
+			cs.Segs = []SegCut{{0, 4}, {100, 12}, {150, len(frag)}}
+			sc := &Scenario{ID: fmt.Sprintf("asc-fragment-at-close-%d", len(scs)), Entry: "client", Conns: []ConnScript{cs}, Cancel: 1900}
+			scs = append(scs, sc)
+			hist["asc-fragment-at-close"]++
+		}
+		victim := Item{Kind: "f", Data: Lit(evMsg(9, true))}.Encode()
+		cs := ConnScript{Items: []Item{ackItem(), {Kind: "f", Data: Lit(evMsg(1, true))}, {Kind: "raw", Data: Lit(victim[:7])}}, End: "close", EndT: 300}
+		cs.Segs = []SegCut{{0, 6}, {100, len(victim)}, {150, 7}}
+		scs = append(scs, &Scenario{ID: fmt.Sprintf("bin-fragment-at-close-%d", len(scs)), Entry: "client", Conns: []ConnScript{cs}, Cancel: 900})
+		hist["bin-fragment-at-close"]++
+	}
+
 	// random cuts of longer random streams, binary and ASCII, delays 0/5/50 ms
 	nrand := 40
 	if tier == "thorough" {
